@@ -8,7 +8,7 @@ Open Scope nat_scope.
 Open Scope list_scope.
 
 (** what a cassette answered: the listed ordinals in listing order, or the exception it raised
-    (1 TypeError, 2 NoSuchRecording, 3 AssertionError, 4 IndexError, 8 out of fuel (model only), 9 other) *)
+    (1 TypeError, 2 NoSuchRecording, 3 AssertionError, 4 IndexError, 5 KeyError, 6 AttributeError, 8 out of fuel (model only), 9 other) *)
 Inductive obs := OIds (l : list nat) | ORaised (code : nat).
 
 Inductive case :=
@@ -54,7 +54,7 @@ Fixpoint nodup_nat (l : list nat) : bool :=
   match l with [] => true | x :: l' => negb (mem_nat x l') && nodup_nat l' end.
 
 Definition code_of (e : exn) : nat :=
-  match e with TypeError => 1 | NoSuchRecording => 2 | AssertionError => 3 | IndexError => 4 end.
+  match e with TypeError => 1 | NoSuchRecording => 2 | AssertionError => 3 | IndexError => 4 | KeyError => 5 | AttributeError => 6 end.
 
 (** model answer as ordinals *)
 Definition to_obs (idf : rec -> str) (h : list rec) (r : lres (list str)) : obs :=
